@@ -844,7 +844,7 @@ func (rr *relayRulesRun) checkApiInvariants(k *sim.Kernel) {
 				if s.to < 0 || s.to > closed {
 					continue
 				}
-				seen := (s.to - 1) / 1000 * 1000 // last tick strictly before the departure ...
+				seen := (s.to - 1) / 1000 * 1000      // last tick strictly before the departure ...
 				if seen > s.from && seen > lastGone { // ... and strictly after the arrival (same-millisecond orders are open)
 					lastGone = seen
 				}
